@@ -1,6 +1,7 @@
 package c12
 
 import (
+	"bytes"
 	"encoding/json"
 	"fmt"
 	"net"
@@ -66,7 +67,58 @@ func (s *crossState) token(cl, q int) string {
 	return fmt.Sprintf("c%dq%ds%08x%s", cl, q, s.c.Salt, s.nonce)
 }
 
-func (s *crossState) real() bool { return s.c.Transport == "realUDP" || s.c.Transport == "realTCP" }
+func (s *crossState) real() bool {
+	return s.c.Transport == "realUDP" || s.c.Transport == "realTCP" || s.c.Transport == "realUDPwild"
+}
+
+// multiAddr reports (once per process) whether this machine delivers datagrams sent to 127.0.0.2
+// and 127.0.0.3 to a wildcard-bound socket, i.e. whether one UDP server can be reached through
+// several local addresses without any setup (true on Linux loopback).
+var multiAddr = sync.OnceValue(func() bool {
+	srv, err := net.ListenUDP("udp4", &net.UDPAddr{IP: net.IPv4zero})
+	if err != nil {
+		return false
+	}
+	defer srv.Close()
+	cli, err := net.ListenUDP("udp4", &net.UDPAddr{IP: net.IPv4zero})
+	if err != nil {
+		return false
+	}
+	defer cli.Close()
+	port := srv.LocalAddr().(*net.UDPAddr).Port
+	buf := make([]byte, 16)
+	for _, last := range []byte{2, 3} {
+		if _, err := cli.WriteToUDP([]byte("probe"), &net.UDPAddr{IP: net.IPv4(127, 0, 0, last), Port: port}); err != nil {
+			return false
+		}
+		srv.SetReadDeadline(time.Now().Add(time.Second))
+		if n, _, err := srv.ReadFromUDP(buf); err != nil || string(buf[:n]) != "probe" {
+			return false
+		}
+	}
+	return true
+})
+
+// wildConn is the client side of transport realUDPwild: an UNCONNECTED socket that sends to one of
+// the server's local addresses and looks at the source address of what comes back. (A connected
+// socket would silently drop a reply that left from another address and merely time out, which on
+// a loaded machine cannot be told from ordinary datagram loss.)
+type wildConn struct {
+	*net.UDPConn
+	dst *net.UDPAddr
+	s   *crossState
+	cl  int
+}
+
+func (w *wildConn) Write(b []byte) (int, error) { return w.UDPConn.WriteToUDP(b, w.dst) }
+func (w *wildConn) RemoteAddr() net.Addr        { return w.dst }
+func (w *wildConn) Read(b []byte) (int, error) {
+	n, src, err := w.UDPConn.ReadFromUDP(b)
+	if err == nil && bytes.Contains(b[:n], []byte(w.s.nonce)) && (!src.IP.Equal(w.dst.IP) || src.Port != w.dst.Port) {
+		w.s.fail("client %d sent its request to %v but the reply of this server came from %v: the reply left from the wrong local address", w.cl, w.dst, src)
+	}
+	return n, err
+}
 
 const tokOpt = 65001
 
@@ -133,6 +185,7 @@ type crossState struct {
 	mu     sync.Mutex
 	seen   map[string]int
 	bad    []string
+	multi  bool // realUDPwild: several local addresses are usable
 	tsigOK atomic.Int32
 	alien  atomic.Int32
 	calls  atomic.Int32
@@ -231,6 +284,13 @@ func checkCross(c Cross) error {
 	if s.alien.Load() > 0 {
 		cl = append(cl, "alien-traffic-ignored")
 	}
+	if c.Transport == "realUDPwild" {
+		if s.multi {
+			cl = append(cl, "several-local-addresses")
+		} else {
+			cl = append(cl, "multi-address-unavailable")
+		}
+	}
 	pbt.Note(key, inflight, cl...)
 	if inflight {
 		pbt.Sample(c.Transport, c)
@@ -259,6 +319,8 @@ func (s *crossState) run() (lost int, err error) {
 	var pn *memnet.PacketNet
 	var pc *memnet.PacketConn
 	var addr string
+	var wildPort int
+	udpReal := c.Transport == "realUDP" || c.Transport == "realUDPwild"
 	switch c.Transport {
 	case "memTCP":
 		lis = memnet.NewListener(nil, "")
@@ -283,6 +345,15 @@ func (s *crossState) run() (lost int, err error) {
 		}
 		srv.PacketConn = p
 		addr = p.LocalAddr().String()
+	case "realUDPwild": // one socket reachable through several local addresses (the usual ":53" setup)
+		p, e := net.ListenUDP("udp4", &net.UDPAddr{IP: net.IPv4zero})
+		if e != nil {
+			fmt.Fprintln(os.Stderr, "c12: INFRASTRUCTURE:", e)
+			os.Exit(2)
+		}
+		srv.PacketConn = p
+		wildPort = p.LocalAddr().(*net.UDPAddr).Port
+		s.multi = multiAddr()
 	default:
 		return 0, fmt.Errorf("unknown transport %q", c.Transport)
 	}
@@ -314,6 +385,16 @@ func (s *crossState) run() (lost int, err error) {
 				conn, e = net.DialTimeout("tcp", addr, 5*time.Second)
 			case "realUDP":
 				conn, e = net.Dial("udp", addr)
+			case "realUDPwild":
+				var u *net.UDPConn
+				u, e = net.ListenUDP("udp4", &net.UDPAddr{IP: net.IPv4zero})
+				if e == nil {
+					last := byte(1)
+					if s.multi {
+						last = byte(1 + cl%3) // 127.0.0.1, .2, .3: neighbouring requests use different local addresses
+					}
+					conn = &wildConn{UDPConn: u, dst: &net.UDPAddr{IP: net.IPv4(127, 0, 0, last), Port: wildPort}, s: s, cl: cl}
+				}
 			}
 			if e != nil {
 				s.fail("client %d cannot connect: %v", cl, e)
@@ -329,7 +410,7 @@ func (s *crossState) run() (lost int, err error) {
 				m := s.request(cl, q)
 				tok := s.token(cl, q)
 				tmo := hangLimit
-				if c.Transport == "realUDP" {
+				if udpReal {
 					tmo = 2 * time.Second // a real datagram may be dropped by the kernel; that is not a violation
 				}
 				conn.SetDeadline(time.Now().Add(tmo))
@@ -338,7 +419,7 @@ func (s *crossState) run() (lost int, err error) {
 					return
 				}
 				rep, e := co.ReadMsg()
-				for i := 0; e == nil && c.Transport == "realUDP" && i < 8; i++ {
+				for i := 0; e == nil && udpReal && i < 8; i++ {
 					a, b, o, _ := tokens(rep)
 					if strings.Contains(a+b+o, s.nonce) {
 						break
@@ -347,7 +428,7 @@ func (s *crossState) run() (lost int, err error) {
 					rep, e = co.ReadMsg()
 				}
 				if e != nil {
-					if c.Transport == "realUDP" && isTimeout(e) {
+					if udpReal && isTimeout(e) {
 						// a straggling reply could now arrive during the next read: stop using this socket
 						lostN.Add(1)
 						return
@@ -413,5 +494,5 @@ func (s *crossState) run() (lost int, err error) {
 
 func init() {
 	pbt.Register(pbt.Sub[Cross]{Name: "crosstalk-mem", Weight: 0.1, Gen: genCross([]string{"memPacket", "memPacket", "memTCP"}), Check: checkCross})
-	pbt.Register(pbt.Sub[Cross]{Name: "crosstalk-real", Weight: 0.1, Gen: genCross([]string{"realUDP", "realUDP", "realTCP"}), Check: checkCross})
+	pbt.Register(pbt.Sub[Cross]{Name: "crosstalk-real", Weight: 0.1, Gen: genCross([]string{"realUDP", "realUDPwild", "realUDPwild", "realTCP"}), Check: checkCross})
 }
